@@ -240,6 +240,74 @@ fn gen_system(g: &mut SplitMix64, fam: u64) -> (usize, Vec<Call>) {
             }
             (if fam == 5 { 3 } else { 2 }, calls)
         }
+        // constant DIAGONAL tables (pure energy shifts) in Ising-symmetric diagonal models: [c,c] on one variable and
+        // [c,c,c,c] on two, c != 0, through `diag` (stored as given) or, as control, `diag_off` (stored as zeros, never
+        // inserted). Such a table is neither a constant operator nor a cluster edge. Half of the systems also have
+        // genuine constant FULL single-site terms [g,g,g,g] (cluster gate open), the other half none (gate closed).
+        6 => {
+            let nvars = g.range(2, 4) as usize;
+            let ring = nvars > 2 && g.coin();
+            let nb = if ring { nvars } else { nvars - 1 };
+            for i in 0..nb {
+                let (a, b) = (e8(g, 0, 12), e8(g, 0, 12));
+                calls.push(Call { variant: 2, mat: vec![a, b, b, a], vars: vec![i, (i + 1) % nvars] });
+            }
+            if g.coin() {
+                let all = g.coin();
+                for v in 0..nvars {
+                    if v == 0 || all || g.coin() {
+                        let gm = e8(g, 1, 8);
+                        calls.push(Call { variant: 0, mat: vec![gm; 4], vars: vec![v] });
+                    }
+                }
+            }
+            // the constant tables, anywhere in the call order
+            let first = g.below(nvars as u64) as usize;
+            for v in 0..nvars {
+                if v == first || g.chance(1, 3) {
+                    let c = e8(g, 1, 12);
+                    let variant = if g.chance(3, 4) { 2 } else { 3 };
+                    let at = g.below(calls.len() as u64 + 1) as usize;
+                    calls.insert(at, Call { variant, mat: vec![c, c], vars: vec![v] });
+                }
+            }
+            if g.coin() {
+                let c = e8(g, 1, 12);
+                let variant = if g.chance(3, 4) { 2 } else { 3 };
+                let at = g.below(calls.len() as u64 + 1) as usize;
+                calls.insert(at, Call { variant, mat: vec![c; 4], vars: distinct_vars(g, nvars, 2) });
+            }
+            (nvars, calls)
+        }
+        // fixed systems of family 6 (no random choices), always run:
+        //  7: [c,c] on a spin that also has a genuine [g,g,g,g] term (gate open)
+        //  8: [c,c] is the only single-site term (gate closed)
+        //  9: three spins, [c,c] on a spin without a full term + a two-variable constant table (gate open)
+        // 10: control, the constant tables through `diag_off` (stored as zeros)
+        7..=10 => {
+            let field = |v: usize| Call { variant: 0, mat: vec![0.375; 4], vars: vec![v] };
+            calls.push(Call { variant: 2, mat: vec![1.0, 0.25, 0.25, 1.0], vars: vec![0, 1] });
+            match fam {
+                7 => {
+                    calls.extend([field(0), field(1)]);
+                    calls.push(Call { variant: 2, mat: vec![1.5, 1.5], vars: vec![1] });
+                }
+                8 => calls.push(Call { variant: 2, mat: vec![1.5, 1.5], vars: vec![0] }),
+                9 => {
+                    calls.push(Call { variant: 2, mat: vec![0.5, 1.0, 1.0, 0.5], vars: vec![1, 2] });
+                    calls.push(Call { variant: 0, mat: vec![0.5; 4], vars: vec![0] });
+                    calls.push(Call { variant: 2, mat: vec![1.0, 1.0], vars: vec![2] });
+                    calls.push(Call { variant: 2, mat: vec![0.625; 4], vars: vec![0, 2] });
+                }
+                _ => {
+                    calls.push(field(0));
+                    calls.push(Call { variant: 3, mat: vec![1.5, 1.5], vars: vec![0] });
+                    calls.push(Call { variant: 3, mat: vec![0.875; 4], vars: vec![0, 1] });
+                    calls.push(field(1));
+                }
+            }
+            (if fam == 9 { 3 } else { 2 }, calls)
+        }
         // Ising-symmetric off-diagonal terms + constant single-site term: loop AND cluster updates
         _ => {
             let nvars = g.range(2, 4) as usize;
@@ -325,6 +393,64 @@ fn legal_and_consistent(q: &Q) -> Result<(), String> {
 thread_local! {
     /// variable lists of the accepted calls in bond order (`Interaction.vars` is private)
     static BOND_VARS: RefCell<Vec<Vec<usize>>> = RefCell::new(vec![]);
+    /// `want_constant` of the accepted calls in bond order
+    static BOND_CONST: RefCell<Vec<bool>> = RefCell::new(vec![]);
+}
+
+/// what the sampler should hold for an accepted call, recomputed from the user's matrix: the matrix / table itself,
+/// for the offset variants with the minimal diagonal entry removed (from the diagonal only for a full matrix);
+/// second component = the removed minimum (0 without offset)
+fn stored_matrix(c: &Call) -> (Vec<f64>, f64) {
+    let mut shifted = c.mat.clone();
+    let mut md = 0.0;
+    if c.variant >= 2 {
+        if c.variant == 3 {
+            md = c.mat.iter().cloned().fold(f64::MAX, f64::min);
+            shifted.iter_mut().for_each(|x| *x -= md);
+        }
+    } else if c.variant == 1 {
+        let tn = 1usize << c.vars.len();
+        md = (0..tn).map(|i| c.mat[i * tn + i]).fold(f64::MAX, f64::min);
+        (0..tn).for_each(|i| shifted[i * tn + i] -= md);
+    }
+    (shifted, md)
+}
+
+/// `is_constant()` of the bond of an accepted call as the property defines it: a FULL matrix (new / new_off) all of
+/// whose stored entries are equal; never a diagonal table (a constant table has no off-diagonal elements)
+fn want_constant(c: &Call) -> bool {
+    let m = stored_matrix(c).0;
+    c.variant < 2 && m.iter().all(|x| *x == m[0])
+}
+
+/// sets BOND_VARS / BOND_CONST from the calls a sampler accepts (bond order). Returns the cluster gate the property
+/// demands: every stored term flip-symmetric and a constant full single-site term among them.
+fn expect_bonds(nvars: usize, calls: &[Call]) -> bool {
+    let mut t = QS::new_with_state(nvars, SplitMix64::new(1), vec![false; nvars], false);
+    let acc: Vec<&Call> = calls.iter().filter(|c| apply_call(&mut t, c).is_ok()).collect();
+    BOND_VARS.with(|b| *b.borrow_mut() = acc.iter().map(|c| c.vars.clone()).collect());
+    BOND_CONST.with(|b| *b.borrow_mut() = acc.iter().map(|c| want_constant(c)).collect());
+    acc.iter().all(|c| flip_symmetric(&stored_matrix(c).0)) && acc.iter().any(|c| c.vars.len() == 1 && want_constant(c))
+}
+
+/// `legal_and_consistent` + every stored op carries the `constant` flag its bond should have (BOND_CONST): in
+/// particular no op of a diagonal table is marked constant (the cluster update cuts world lines at constant
+/// single-site ops and flips the two sides independently)
+fn legal_with_flags(q: &Q) -> Result<(), String> {
+    legal_and_consistent(q)?;
+    let m = q.get_manager_ref();
+    for p in 0..m.get_cutoff() {
+        if let Some(op) = m.get_pth(p) {
+            let want = BOND_CONST.with(|b| b.borrow()[op.get_bond()]);
+            if op.is_constant() != want {
+                return Err(format!(
+                    "op at p={} of bond {} carries constant = {} but its bond is {}a full matrix with all entries equal",
+                    p, op.get_bond(), op.is_constant(), if want { "" } else { "not " }
+                ));
+            }
+        }
+    }
+    Ok(())
 }
 
 // ------------------------------------------------------------------------------------------
@@ -372,7 +498,7 @@ fn loop_case(q: &mut Q, h: &Handle, calls_tok: &str) -> Option<(usize, bool)> {
         Ok(()) => {
             let after_state = q.state_ref().to_vec();
             let after_slots = show_slots(q.get_manager_ref());
-            let mut oracle = legal_and_consistent(q);
+            let mut oracle = legal_with_flags(q);
             if oracle.is_ok() && skeleton(q) != sk {
                 oracle = Err("loop update changed positions / bonds / vars / n".into());
             }
@@ -416,7 +542,7 @@ fn free_case(q: &mut Q, h: &Handle) {
         }
     }
     let nfree = covered.iter().filter(|c| !**c).count();
-    let mut oracle = legal_and_consistent(q);
+    let mut oracle = legal_with_flags(q);
     if oracle.is_ok() {
         if log.len() != nfree {
             oracle = Err(format!("{} draws for {} free variables", log.len(), nfree));
@@ -493,12 +619,7 @@ fn run_traj(g: &mut SplitMix64, thorough: bool) {
         if q.get_bonds().is_empty() {
             continue;
         }
-        let accepted: Vec<Vec<usize>> = {
-            // variable lists of the accepted calls, in bond order (private field of Interaction)
-            let mut t = QS::new_with_state(nvars, SplitMix64::new(1), vec![false; nvars], false);
-            calls.iter().filter(|c| apply_call(&mut t, c).is_ok()).map(|c| c.vars.clone()).collect()
-        };
-        BOND_VARS.with(|b| *b.borrow_mut() = accepted.clone());
+        expect_bonds(nvars, &calls);
         let calls_tok = show_calls(&calls);
         let beta = if witness { fixed[s - nsys].1 } else { *g.pick(&[0.5, 1.0, 1.5, 2.0, 3.0, 4.0]) };
         stat(&format!("family_{}", fam), 1);
@@ -538,7 +659,7 @@ fn run_traj(g: &mut SplitMix64, thorough: bool) {
         let nvars = g.range(3, 6) as usize;
         let calls = vec![Call { variant: 0, mat: exchange(0.5, 0.5, 0.25, 0.5, 0.0), vars: vec![0, 1] }];
         let (mut q, h) = build(g, nvars, &calls, true, false);
-        BOND_VARS.with(|b| *b.borrow_mut() = vec![vec![0, 1]]);
+        expect_bonds(nvars, &calls);
         let tok = show_calls(&calls);
         loop_case(&mut q, &h, &tok); // n = 0
         free_case(&mut q, &h);
@@ -547,6 +668,92 @@ fn run_traj(g: &mut SplitMix64, thorough: bool) {
         loop_case(&mut q, &h, &tok);
         free_case(&mut q, &h);
     }
+    // constant diagonal tables (family 6): random systems, then every fixed system (families 7..10) with
+    // (beta, heat bath, loop updates) = CONSTDIAG_RUNS; 40 checked timesteps each from the empty string
+    let n6 = if thorough { 300 } else { 16 };
+    for s in 0..n6 + 4 * CONSTDIAG_RUNS.len() {
+        let fixed = s.checked_sub(n6).map(|i| (7 + i / CONSTDIAG_RUNS.len(), CONSTDIAG_RUNS[i % CONSTDIAG_RUNS.len()]));
+        let (nvars, calls) = gen_system(g, fixed.map(|f| f.0 as u64).unwrap_or(6));
+        let (beta, hb, do_loop) = match fixed {
+            Some(f) => f.1,
+            None => (*g.pick(&[0.5, 1.0, 1.5, 2.0, 3.0, 4.0]), g.coin(), g.coin()),
+        };
+        let (mut q, h) = build(g, nvars, &calls, do_loop, hb);
+        let want_gate = expect_bonds(nvars, &calls);
+        let calls_tok = show_calls(&calls);
+        stat(&format!("family_{}", fixed.map(|f| f.0).unwrap_or(6)), 1);
+        stat(if hb { "heatbath_on" } else { "heatbath_off" }, 1);
+        stat(if want_gate { "constdiag_gate_open" } else { "constdiag_gate_closed" }, 1);
+        for step in 0..40 {
+            if step % 3 == 0 {
+                pipe_case(&q, beta, do_loop, &calls_tok);
+            }
+            if !checked_step(&mut q, &h, beta, &calls_tok, step, want_gate) {
+                break;
+            }
+        }
+    }
+}
+
+/// (beta, heat bath, loop updates) of the runs of each fixed constant-diagonal-table system (distinct betas: the
+/// `clustercheck` input names the system, beta and step)
+const CONSTDIAG_RUNS: [(f64, bool, bool); 4] = [(1.0, false, true), (2.0, true, false), (0.5, true, true), (3.0, false, false)];
+
+/// One `timestep` of the real sampler in its public parts (diagonal; [loop]; [cluster]; free refresh, the optional
+/// parts exactly when `should_do_*` says so), the configuration checked with `legal_with_flags` after the diagonal
+/// update and after the cluster update (which have no case of their own): one `clustercheck` case per step, output `-`.
+/// Also: the cluster update runs only if the property's gate (`want_gate`) is open. Returns false when the run has
+/// to stop (a check failed).
+fn checked_step(q: &mut Q, h: &Handle, beta: f64, calls_tok: &str, step: usize, want_gate: bool) -> bool {
+    let input = format!("clustercheck {} {} {}", calls_tok, rat(beta), step);
+    let mut fails: Vec<String> = vec![];
+    let cc_ops = |q: &Q| {
+        // ops of constant one-variable diagonal tables in the string (statistics: the checks are not vacuous)
+        let m = q.get_manager_ref();
+        (0..m.get_cutoff())
+            .filter_map(|p| m.get_pth(p))
+            .filter(|o| o.get_vars().len() == 1 && o.is_diagonal() && !BOND_CONST.with(|b| b.borrow()[o.get_bond()]))
+            .count()
+    };
+    if let Err(p) = catch(|| q.diagonal_update(beta)) {
+        emit(true, &input, "-", Some(Err(format!("diagonal_update panicked: {}", p))));
+        return false;
+    }
+    if let Err(e) = legal_and_consistent(q) {
+        emit(true, &input, "-", Some(Err(format!("after the diagonal update: {}", e))));
+        return false;
+    }
+    if let Err(e) = legal_with_flags(q) {
+        fails.push(format!("after the diagonal update: {}", e));
+    }
+    stat("constdiag_steps", 1);
+    if q.should_do_loop_update() {
+        loop_case(q, h, calls_tok);
+    }
+    if q.should_do_cluster_update() {
+        stat("constdiag_cluster_updates", 1);
+        stat("constdiag_cluster_updates_single_site_table_ops_in_string", cc_ops(q));
+        if !want_gate {
+            fails.push("should_do_cluster_update() = true (the cluster update runs) but the accepted terms do not contain a constant full single-site matrix, or are not all flip-symmetric".into());
+        }
+        match catch(|| q.cluster_update().map_err(|e| e.to_string())) {
+            Err(p) => fails.push(format!("cluster_update panicked: {}", p)),
+            Ok(Err(e)) => fails.push(format!("cluster_update refused: {}", e)),
+            Ok(Ok(())) => {
+                if let Err(e) = legal_with_flags(q) {
+                    fails.push(format!("after the cluster update: {}", e));
+                }
+            }
+        }
+    } else if want_gate {
+        fails.push("should_do_cluster_update() = false although all accepted terms are flip-symmetric and a constant full single-site matrix is among them".into());
+    }
+    let ok = fails.is_empty();
+    emit(true, &input, "-", Some(if ok { Ok(()) } else { Err(fails.join("; ")) }));
+    if ok {
+        free_case(q, h);
+    }
+    ok
 }
 
 // ------------------------------------------------------------------------------------------
@@ -560,6 +767,7 @@ fn flip_symmetric(m: &[f64]) -> bool {
 fn gate_case(g: &mut SplitMix64, nvars: usize, calls: &[Call], do_loop: bool) {
     let mut q = QS::new_with_state(nvars, SplitMix64::new(3), vec![false; nvars], do_loop);
     let mut acc = vec![];
+    let mut accepted: Vec<&Call> = vec![];
     let mut want_offset = 0.0f64;
     let mut all_sym = true;
     let mut has_const1 = false;
@@ -575,28 +783,17 @@ fn gate_case(g: &mut SplitMix64, nvars: usize, calls: &[Call], do_loop: bool) {
                 acc.push(r.is_ok());
                 if r.is_ok() {
                     // the property, recomputed from the user's matrix (model-independent)
-                    let k = c.vars.len();
-                    let mut shifted = c.mat.clone();
-                    if c.variant >= 2 {
-                        let md = c.mat.iter().cloned().fold(f64::MAX, f64::min);
-                        if c.variant == 3 {
-                            want_offset -= md;
-                            shifted.iter_mut().for_each(|x| *x -= md);
-                        }
-                    } else {
-                        let tn = 1usize << k;
-                        let md = (0..tn).map(|i| c.mat[i * tn + i]).fold(f64::MAX, f64::min);
-                        if c.variant == 1 {
-                            want_offset -= md;
-                            (0..tn).for_each(|i| shifted[i * tn + i] -= md);
-                        }
+                    let (shifted, md) = stored_matrix(c);
+                    if c.variant == 1 || c.variant == 3 {
+                        want_offset -= md;
                     }
                     if !flip_symmetric(&shifted) {
                         all_sym = false;
                     }
-                    if c.variant < 2 && k == 1 && shifted.iter().all(|x| *x == shifted[0]) {
+                    if c.vars.len() == 1 && want_constant(c) {
                         has_const1 = true;
                     }
+                    accepted.push(c);
                 }
             }
         }
@@ -611,9 +808,19 @@ fn gate_case(g: &mut SplitMix64, nvars: usize, calls: &[Call], do_loop: bool) {
     let js = serde_json::to_value(&q).unwrap();
     let ncd: Vec<u64> = js["non_const_diags"].as_array().unwrap().iter().map(|x| x.as_u64().unwrap()).collect();
     let e = q.get_energy_for_average_n(avg_n, beta);
+    // `is_constant()` of the registered bonds, bond order
+    let cb: Vec<bool> = q.get_bonds().iter().map(|b| b.is_constant()).collect();
+    let bad_const = (0..accepted.len()).find(|b| cb.get(*b) != Some(&want_constant(accepted[*b])));
     let mut oracle = Ok(());
     if q.get_offset() != want_offset {
         oracle = Err(format!("recorded offset {} but -(sum of minimal diagonals) = {}", q.get_offset(), want_offset));
+    } else if cb.len() != accepted.len() {
+        oracle = Err(format!("{} bonds stored for {} accepted calls", cb.len(), accepted.len()));
+    } else if let Some(b) = bad_const {
+        oracle = Err(format!(
+            "bond {} ({}): is_constant() = {} but a constant operator is a FULL matrix with all entries equal: expected {}",
+            b, show_calls(std::slice::from_ref(accepted[b])), cb[b], want_constant(accepted[b])
+        ));
     } else if q.should_do_cluster_update() != (all_sym && has_const1) {
         oracle = Err(format!(
             "should_do_cluster_update() = {} but all-symmetric = {}, constant single-site term = {}",
@@ -626,14 +833,15 @@ fn gate_case(g: &mut SplitMix64, nvars: usize, calls: &[Call], do_loop: bool) {
     }
     stat(if q.should_do_cluster_update() { "gate_cluster_on" } else { "gate_cluster_off" }, 1);
     let out = format!(
-        "{} {} {} {} {} {} ~{:.15e}",
+        "{} {} {} {} {} {} ~{:.15e} {}",
         bits(&acc),
         q.get_bonds().len(),
         q.should_do_cluster_update() as u8,
         q.should_do_loop_update() as u8,
         rat(q.get_offset()),
         list(&ncd),
-        e
+        e,
+        bits(&cb)
     );
     emit(acc.iter().any(|a| *a), &input, &out, Some(oracle));
 }
@@ -643,34 +851,7 @@ fn run_gate(g: &mut SplitMix64, thorough: bool) {
     for i in 0..n {
         let fam = g.below(4);
         let (nvars, mut calls) = gen_system(g, fam);
-        // perturbations: drop the constant term, break the symmetry far from index 0, add junk calls
-        match g.below(6) {
-            0 => {
-                calls.retain(|c| !(c.vars.len() == 1 && c.variant < 2));
-            }
-            1 => {
-                if let Some(c) = calls.iter_mut().rev().find(|c| c.mat.len() >= 4) {
-                    let j = c.mat.len() - 1 - g.below(2) as usize;
-                    c.mat[j] += 0.125;
-                }
-            }
-            2 => {
-                let v = g.below(4) as u8;
-                let len = *g.pick(&[0usize, 2, 3, 4, 8, 16, 5]);
-                let mat: Vec<f64> = (0..len).map(|_| e8(g, -2, 8)).collect();
-                let k = g.range(0, 2) as usize;
-                let vars = distinct_vars(g, nvars, k);
-                let at = g.below(calls.len() as u64 + 1) as usize;
-                calls.insert(at, Call { variant: v, mat, vars });
-            }
-            3 => {
-                // constant two-site term only (not a cluster edge)
-                let gm = e8(g, 1, 8);
-                calls.retain(|c| !(c.vars.len() == 1 && c.variant < 2));
-                calls.push(Call { variant: 0, mat: vec![gm; 16], vars: vec![0, 1] });
-            }
-            _ => {}
-        }
+        perturb(g, nvars, &mut calls);
         if i % 50 == 0 {
             calls.clear();
         }
@@ -684,6 +865,54 @@ fn run_gate(g: &mut SplitMix64, thorough: bool) {
             stat("gate_f22_witness", 1);
             gate_case(g, nvars, &calls, dl);
         }
+    }
+    // constant diagonal tables: random systems of family 6 (same perturbations), then the fixed systems 7..10
+    for i in 0..(if thorough { 1500 } else { 60 }) {
+        let (nvars, mut calls) = gen_system(g, 6);
+        if i % 2 == 1 {
+            perturb(g, nvars, &mut calls);
+        }
+        let dl = g.coin();
+        stat("gate_constdiag", 1);
+        gate_case(g, nvars, &calls, dl);
+    }
+    for fam in 7..=10 {
+        let (nvars, calls) = gen_system(g, fam);
+        for dl in [false, true] {
+            stat("gate_constdiag_fixed", 1);
+            gate_case(g, nvars, &calls, dl);
+        }
+    }
+}
+
+/// perturbations of a call list: drop the constant term, break the symmetry far from index 0, add junk calls
+fn perturb(g: &mut SplitMix64, nvars: usize, calls: &mut Vec<Call>) {
+    match g.below(6) {
+        0 => {
+            calls.retain(|c| !(c.vars.len() == 1 && c.variant < 2));
+        }
+        1 => {
+            if let Some(c) = calls.iter_mut().rev().find(|c| c.mat.len() >= 4) {
+                let j = c.mat.len() - 1 - g.below(2) as usize;
+                c.mat[j] += 0.125;
+            }
+        }
+        2 => {
+            let v = g.below(4) as u8;
+            let len = *g.pick(&[0usize, 2, 3, 4, 8, 16, 5]);
+            let mat: Vec<f64> = (0..len).map(|_| e8(g, -2, 8)).collect();
+            let k = g.range(0, 2) as usize;
+            let vars = distinct_vars(g, nvars, k);
+            let at = g.below(calls.len() as u64 + 1) as usize;
+            calls.insert(at, Call { variant: v, mat, vars });
+        }
+        3 => {
+            // constant two-site term only (not a cluster edge)
+            let gm = e8(g, 1, 8);
+            calls.retain(|c| !(c.vars.len() == 1 && c.variant < 2));
+            calls.push(Call { variant: 0, mat: vec![gm; 16], vars: vec![0, 1] });
+        }
+        _ => {}
     }
 }
 
